@@ -34,6 +34,10 @@ def fam2 : Prims ℚ :=
     norm := fun loc => stubD (7/5) loc
     nct := fun df nc => stubD ((2 * df + 1) / (2 * df + 5)) (nc * 9 / 10) }
 
+/-- stand-in for `scipy.stats.binomtest(k, n, p).pvalue` in the exact mode (an arbitrary fixed
+rational function: it only has to be called with the right arguments) -/
+def binomStub (k n p : ℚ) : ℚ := (k + 1) / (n + 2) * p + (n - k) / (n + 3) * (1 - p) / 7
+
 def family (n : Nat) : Prims ℚ := if n = 2 then fam2 else fam1
 
 end Stubs
